@@ -777,10 +777,19 @@ Fixpoint names_distinct (l : list string) : bool :=
   | x :: r => negb (str_in x r) && names_distinct r
   end.
 
-(** the name bound by a let binder / declared by a command: a symbol that no theory owns *)
+(** symbols starting with [.] or [@] are reserved for solver use: a script may mention but
+    not bind or declare them (3.1) *)
+Definition is_solver_reserved (n : string) : bool :=
+  match n with
+  | String c _ => Ascii.eqb c "."%char || Ascii.eqb c "@"%char
+  | EmptyString => false
+  end.
+
+(** the name bound by a let binder / declared by a command: a symbol that no theory owns
+    and that is not reserved for solver use *)
 Definition binder_name (a : string) : option string :=
   match symbol_name a with
-  | Some n => if is_theory_name n then None else Some n
+  | Some n => if is_theory_name n || is_solver_reserved n then None else Some n
   | None => None
   end.
 
